@@ -197,6 +197,35 @@ def norm(s):
     return re.sub(r"\s+", " ", s).strip()
 
 
+def guard_of(code, orig, off):
+    """Header of the innermost enclosing `if` / `match` / `while` / `for` block (with the match arm, when the
+    site sits in an arm with a block body); "" if none inside the fn."""
+    depth, k = 0, off
+    arm = ""
+    while k > 0:
+        k -= 1
+        ch = code[k]
+        if ch == "}": depth += 1
+        elif ch == "{":
+            if depth > 0: depth -= 1; continue
+            # header: back to the previous ';', '{' or '}' at this level
+            h = k
+            d2 = 0
+            while h > 0:
+                c2 = code[h - 1]
+                if c2 in ")]": d2 += 1
+                elif c2 in "([": d2 -= 1
+                elif c2 in ";{}" and d2 <= 0: break
+                h -= 1
+            head = norm(code[h:k])
+            head = re.sub(r"^else\s+", "", head)
+            if re.search(r"\bfn\s+\w+", head): return ""
+            m = re.search(r"\b(if|match|while|for)\b.*$", head)
+            if m: return m.group(0) + (" | " + arm if arm else "")
+            if head.endswith("=>") and not arm: arm = head
+    return ""
+
+
 def find_sites(path, rel):
     orig = open(path).read()
     blank = blank_comments_and_strings(orig)
@@ -228,7 +257,8 @@ def find_sites(path, rel):
         fn = fn_of(off)
         key = (fn, kind)
         counts[key] = counts.get(key, 0) + 1
-        res.append({"file": rel, "fn": fn, "kind": kind, "occ": counts[key], "line": line_of(off), "text": ctx(off)})
+        res.append({"file": rel, "fn": fn, "kind": kind, "occ": counts[key], "line": line_of(off), "text": ctx(off),
+                    "guard": guard_of(code, orig, off)})
     return res
 
 
@@ -253,12 +283,13 @@ def main():
         print(json.dumps(sites, indent=1)); return
     lines = ["/-  GENERATED by tools/extract_panics.py from /repo/library/src — do not edit.  -/",
              "namespace Updater.Gen", "",
-             "/-- (file, enclosing fn, kind, occurrence within the fn) of every expression of the production Linux",
-             "    build that can panic by itself. -/",
-             "def panicSites : List (String × String × String × Nat) := ["]
+             "/-- (file, enclosing fn, kind, occurrence within the fn, innermost enclosing if/match header, statement) of",
+             "    every expression of the production Linux build that can panic by itself. -/",
+             "def panicSites : List (String × String × String × Nat × String × String) := ["]
     for i, s in enumerate(sites):
         sep = "," if i + 1 < len(sites) else ""
-        lines.append("  (%s, %s, %s, %d)%s  -- %s" % (lean_str(s["file"]), lean_str(s["fn"]), lean_str(s["kind"]), s["occ"], sep, s["text"][:110]))
+        lines.append("  (%s, %s, %s, %d, %s, %s)%s" % (lean_str(s["file"]), lean_str(s["fn"]), lean_str(s["kind"]), s["occ"],
+                                                   lean_str(s["guard"]), lean_str(s["text"]), sep))
     lines += ["]", "", "end Updater.Gen", ""]
     os.makedirs(os.path.dirname(OUT), exist_ok=True)
     new = "\n".join(lines)
